@@ -130,12 +130,19 @@ _faketime = _Fallback(_real_time, time=_CLOCK.time, sleep=_CLOCK.sleep, monotoni
 class WakeQueue:
     """stand-in for ElectronicControlUnit._job_thread_wakeup_queue"""
 
-    def __init__(self):
+    def __init__(self, maxsize=0):
         self.n = 0
         self.sleep_until = None
         self.node = None
+        self.maxsize = maxsize
 
-    def put(self, x):
+    def put(self, x, block=True, timeout=None):
+        if self.maxsize and self.n >= self.maxsize:
+            if not block or timeout is not None:
+                raise _real_queue.Full()
+            # a blocking put on a full wake-up queue: nobody but the job thread ever takes tokens out, and it only does so
+            # when it goes to sleep - the caller (often the job thread itself, re-entrantly) would wait for ever
+            raise Runaway("put() blocks on the full wake-up queue")
         self.n += 1
         s = _sim()
         if s is not None and self.node is not None and s.log_tokens:
@@ -466,6 +473,9 @@ class Sim:
             ev["flags"] = {"ext": bool(f.get("ext", True)), "remote": bool(f.get("remote", False)),
                            "error": bool(f.get("error", False))}
         self.touch(n)
+        top = self.depth == 0
+        if top:
+            self.clock_calls = 0
         self.depth += 1
         try:
             if via_listener:
@@ -481,6 +491,8 @@ class Sim:
             else:
                 n.ecu.notify(can_id, list(data), self.now_us / 1e6)
         except Spin:
+            if top:                      # a handler that keeps asking for the time and never returns
+                raise Runaway("notify() keeps polling the clock")
             raise
         except Exception as e:          # raised to the caller that fed the frame in
             ev["exc"] = type(e).__name__
@@ -618,11 +630,16 @@ class Sim:
         """an application-thread call into node n; logged with its result"""
         ev = self.log(dict({"ev": "api", "node": n.name, "op": op}, **args))
         self.touch(n)
+        top = self.depth == 0
+        if top:
+            self.clock_calls = 0
         self.depth += 1
         try:
             r = fn()
             ev["ret"] = r if isinstance(r, (bool, int, type(None), list, str)) else repr(r)
         except Spin:
+            if top:
+                raise Runaway("an application call keeps polling the clock")
             raise
         except BaseException as e:
             if isinstance(e, (_Yield, Runaway)):
